@@ -11,7 +11,7 @@
 (* The POSTCONDITION requires that the whole trace was consumed; the       *)
 (* runner decides the exit status from the JUDGE lines.                    *)
 (***************************************************************************)
-EXTENDS TauRule, TauKnown, TauIdent, Json, IOUtils, TLC
+EXTENDS TauRule, TauKnown, TauIdent, TauKeys, Json, IOUtils, TLC
 
 Rec == ndJsonDeserialize(IOEnv.TRACE)
 
@@ -165,7 +165,32 @@ TrAlt ==
           /\ objs' = Append(objs, [sw |-> <<>>, st |-> "dead", src |-> 0])
           /\ UNCHANGED <<cur, phase, den, prints>>
 
-TrNext == TrAlt \/ TrFound \/ TrIdent \/ TrFload \/ TrCore \/ TrCase \/ TrSkip \/ TrLoad \/ TrLoad2 \/ TrOpt \/ TrMatch \/ TrTri \/ TrValidate \/ TrSer \/ TrReload
+(* C16: a match through a recording document.  The verdict is an ordinary observation; every    *)
+(* find(key) the engine made, on the root or on a nested object, must be for a key the rule     *)
+(* writes for that position.                                                                  *)
+BadCalls == {i \in DOMAIN e.calls : ~FindAllowed(Ast(cur.src), e.calls[i][1], e.calls[i][2])}
+TrFinds ==
+  /\ IsEv("finds") /\ Adv
+  /\ LET d == e.d + 1 v == OutBool(e.out) IN
+     IF e.out \in {"t", "f"} /\ phase = "loaded" /\ e.obj + 1 \in DOMAIN objs /\ d \in DOMAIN cur.docs
+        /\ v \in Allowed(e.obj, d) /\ BadCalls = {}
+     THEN Match(e.obj, d, v) /\ Good
+     ELSE /\ Bad(IF e.out = "p" THEN "match_panic"
+                 ELSE IF BadCalls # {} THEN "find_key"
+                 ELSE IF DK(e.obj, d) \in DOMAIN den /\ den[DK(e.obj, d)] # v THEN "den" ELSE "oracle",
+                 [obj |-> e.obj, d |-> e.d, out |-> e.out,
+                  bad |-> IF BadCalls = {} THEN <<>> ELSE e.calls[MinOf(BadCalls)]])
+          /\ UNCHANGED rvars
+
+(* C15: the same case loaded by the ignore_case build; its objects join the case, so their      *)
+(* verdicts are held against the same denotation (and the same oracle: every pattern of a C15   *)
+(* case is case-insensitive)                                                                  *)
+TrIcLoad ==
+  /\ IsEv("icload") /\ Adv /\ UNCHANGED rvars
+  /\ IF e.out # "panic" /\ (e.out = "ok") = (phase = "loaded") THEN Good
+     ELSE Bad(IF e.out = "panic" THEN "load_panic" ELSE "ic_load_differs", [out |-> e.out])
+
+TrNext == TrIcLoad \/ TrFinds \/ TrAlt \/ TrFound \/ TrIdent \/ TrFload \/ TrCore \/ TrCase \/ TrSkip \/ TrLoad \/ TrLoad2 \/ TrOpt \/ TrMatch \/ TrTri \/ TrValidate \/ TrSer \/ TrReload
 
 TrSpec == TrInit /\ [][TrNext]_tvars
 
